@@ -690,7 +690,17 @@ impl EGraph {
             self.report_level,
             context,
         )?;
-        if let Some(message) = self.panic_message.lock().unwrap().take() {
+        let panic_message = self.panic_message.lock().unwrap().take();
+        if let Some(message) = panic_message {
+            // The writes of the failed iteration that were merged before the panic was
+            // noticed (including unions) stay in the database: restore canonicity before
+            // reporting the failure, as every other exit of this function does.
+            if self.db.get_table(self.uf_table).len() != uf_size_before {
+                self.rebuild()?;
+                self.panic_message.lock().unwrap().take();
+            } else {
+                self.inc_ts();
+            }
             return Err(PanicError(message).into());
         }
 
